@@ -16,10 +16,17 @@
 (* With FlushEach = TRUE, ReadAhead = FALSE, Buffered = FALSE every        *)
 (* behaviour completes N rounds; any other setting deadlocks, which is the *)
 (* liveness half of the property.                                          *)
+(*   Shape      = "bidi": one reply per request message (ping-pong);       *)
+(*                "cstream": a client-streaming method whose handler sends *)
+(*                its one reply after the first request message while the  *)
+(*                client sends the rest only after it has seen that reply  *)
+(*   FlushShapes = the shapes for which the writer adapter flushes per     *)
+(*                message (the code: all of them; a writer that flushes    *)
+(*                only where further replies can follow deadlocks cstream) *)
 (***************************************************************************)
 EXTENDS Integers, TLC
 
-CONSTANTS N, FlushEach, ReadAhead, Buffered
+CONSTANTS N, FlushEach, ReadAhead, Buffered, Shape, FlushShapes
 
 VARIABLES sent,      \* request messages the client has put on the wire
           handed,    \* request messages the transcoder has handed to the handler
@@ -29,13 +36,17 @@ VARIABLES sent,      \* request messages the client has put on the wire
           closed     \* the client has ended its request stream
 vars == <<sent, handed, replied, forwarded, visible, closed>>
 
+\* replies the handler owes after having read k request messages; R in total
+Owed(k) == IF Shape = "bidi" THEN k ELSE (IF k >= 1 THEN 1 ELSE 0)
+R == Owed(N)
+
 Init == sent = 0 /\ handed = 0 /\ replied = 0 /\ forwarded = 0 /\ visible = 0 /\ closed = FALSE
 
 \* strict alternation: message k+1 only after reply k
-ClientSend == /\ sent < N /\ visible = sent
+ClientSend == /\ sent < N /\ visible = Owed(sent)
               /\ sent' = sent + 1
               /\ UNCHANGED <<handed, replied, forwarded, visible, closed>>
-ClientClose == /\ sent = N /\ visible = N /\ ~closed
+ClientClose == /\ sent = N /\ visible = R /\ ~closed
                /\ closed' = TRUE
                /\ UNCHANGED <<sent, handed, replied, forwarded, visible>>
 
@@ -46,30 +57,30 @@ ReaderHandOver == /\ handed < sent
                   /\ UNCHANGED <<sent, replied, forwarded, visible, closed>>
 
 \* the handler answers message k after reading it
-HandlerReply == /\ replied < handed
+HandlerReply == /\ replied < Owed(handed)
                 /\ replied' = replied + 1
                 /\ UNCHANGED <<sent, handed, forwarded, visible, closed>>
 
 \* envelopingWriter / transformingWriter: forward the reply; flushMessage
 WriterForward == /\ forwarded < replied
                  /\ forwarded' = forwarded + 1
-                 /\ visible' = IF FlushEach /\ ~Buffered THEN forwarded + 1 ELSE visible
+                 /\ visible' = IF FlushEach /\ Shape \in FlushShapes /\ ~Buffered THEN forwarded + 1 ELSE visible
                  /\ UNCHANGED <<sent, handed, replied, closed>>
 
 \* the end of the RPC makes everything visible
-Finish == /\ closed /\ handed = N /\ replied = N /\ forwarded = N /\ visible < N
-          /\ visible' = N
+Finish == /\ closed /\ handed = N /\ replied = R /\ forwarded = R /\ visible < R
+          /\ visible' = R
           /\ UNCHANGED <<sent, handed, replied, forwarded, closed>>
 
 \* the RPC is over (terminal state; everything else that cannot move is a deadlock)
-Terminated == visible = N /\ closed /\ UNCHANGED vars
+Terminated == visible = R /\ closed /\ UNCHANGED vars
 
 Next == ClientSend \/ ClientClose \/ ReaderHandOver \/ HandlerReply \/ WriterForward \/ Finish \/ Terminated
 Spec == Init /\ [][Next]_vars /\ WF_vars(Next)
 
-TypeOK == /\ handed <= sent /\ replied <= handed /\ forwarded <= replied /\ visible <= forwarded
+TypeOK == /\ handed <= sent /\ replied <= Owed(handed) /\ forwarded <= replied /\ visible <= forwarded
 \* no read-ahead: a message is handed over without anything beyond it having been sent (safety half)
 NoHiddenBuffering == (~ReadAhead /\ FlushEach /\ ~Buffered) => (visible = forwarded \/ visible = forwarded - 1)
 \* liveness: N rounds complete
-Completes == <>(visible = N /\ closed)
+Completes == <>(visible = R /\ closed)
 =============================================================================
